@@ -162,7 +162,14 @@ impl<'a> DataParser<'a> {
             return;
         }
 
-        if self.current_element.len() > 0 {
+        // Blank text after the last item (e.g. between a closing quote or a
+        // trailing comma and the end of the statement) is not an item.
+        let has_content = if self.state == ParseState::InDoubleQuotedString {
+            self.current_element.len() > 0
+        } else {
+            !self.current_element.trim().is_empty()
+        };
+        if has_content {
             self.push_current_element();
         } else if self.elements.len() == 0 {
             self.push_current_element();
